@@ -441,6 +441,11 @@ def gen_procedures(rng, tier, seed):
         case['situation'] = rng.choice(['peer_present', 'peer_present', 'peer_absent', 'peer_vanishes'])
         if proc == 'classic_create' and rng.random() < 0.3:
             case['situation'] += '+cancel'
+        elif proc == 'classic_create' and rng.random() < 0.35:
+            # two pages towards two present peers pending at once; the first peer's host may be slow to accept
+            case['situation'] = 'two_peers'
+            case['n'] = 3
+            case['stall_first'] = rng.choice([0, 0.02, 0.2])
     else:
         case['situation'] = rng.choice(['live', 'live', 'unknown_handle', 'peer_vanishes'])
         # role of the commanding host on that link, and the peer controller's capability set (a random subset of its LE features)
@@ -518,6 +523,11 @@ def run_procedures(case):
             cmds.append(hci.HCI_Create_Connection_Command(bd_addr=addr, packet_type=0xCC18, page_scan_repetition_mode=2, reserved=0, clock_offset=0, allow_role_switch=1))
             if '+cancel' in situation:
                 later.append((case['when'], lambda: sim.loop.create_task(host.send_command(hci.HCI_Create_Connection_Cancel_Command(bd_addr=addr)))))
+            if situation == 'two_peers':
+                cmds.append(hci.HCI_Create_Connection_Command(bd_addr=world[2].controller.public_address, packet_type=0xCC18, page_scan_repetition_mode=2, reserved=0, clock_offset=0, allow_role_switch=1))
+                if case.get('stall_first'):
+                    n1.c2h.stall(case['stall_first'])
+                sim.probe('two_pages_to_two_peers_pending')
         elif proc == 'remote_name':
             addr = n1.controller.public_address if 'absent' not in situation else hci.Address('DE:AD:BE:EF:00:01', hci.Address.PUBLIC_DEVICE_ADDRESS)
             cmds.append(hci.HCI_Remote_Name_Request_Command(bd_addr=addr, page_scan_repetition_mode=2, reserved=0, clock_offset=0))
